@@ -13,8 +13,9 @@ from mc.vloop import VLoop
 class Run:
     """one execution: replays a schedule (list of actions) on a fresh world"""
 
-    def __init__(self, program, shared_fn):
+    def __init__(self, program, shared_fn, ctor_first=False):
         import param
+        self.ctor_first = ctor_first
         reset_globals()
         self.param = param
         self.program = program
@@ -31,8 +32,11 @@ class Run:
         class T(param.Parameterized):
             p = param.Parameter(default=('init',), allow_refs=True)
 
-        self.S, self.T = S(), T()
-        self.T.param.watch(lambda e: self.seen.append(e.new), 'p')
+        self.S, self.Tcls = S(), T
+        self.T = None
+        if not ctor_first:
+            self.T = T()
+            self.T.param.watch(lambda e: self.seen.append(e.new), 'p')
         self.shared = None
         if shared_fn:
             run = self
@@ -56,22 +60,29 @@ class Run:
         self.assigned_at.append(len(self.seen))
         run = self
         param = self.param
+        def put(value):
+            if self.T is None:
+                # the first assignment of the program is made through the constructor
+                self.T = self.Tcls(p=value)
+                self.T.param.watch(lambda e: self.seen.append(e.new), 'p')
+            else:
+                self.T.p = value
         if kind == 'p':
-            self.T.p = ('p', k)
+            put(('p', k))
         elif kind == 'c':
             if self.shared is not None:
-                self.T.p = self.shared
+                put(self.shared)
             else:
                 async def coro():
                     return ('v', k, await run.fut(('c', k)))
-                self.T.p = coro
+                put(coro)
         elif kind == 'g':
             async def agen():
                 await run.fut(('g', k, 0))
                 yield ('g', k, 0)
                 await run.fut(('g', k, 1))
                 yield ('g', k, 1)
-            self.T.p = agen
+            put(agen)
         elif kind == 'b':
             calls = {'n': 0}
 
@@ -80,7 +91,7 @@ class Run:
                 calls['n'] += 1
                 await run.fut(('b', k, n))
                 return ('b', k, s)
-            self.T.p = param.bind(bound, self.S.param.s)
+            put(param.bind(bound, self.S.param.s))
         elif kind == 'u':
             self.S.s = self.S.s + 1
 
@@ -218,6 +229,8 @@ class C10(Harness):
                 if not any(k in prog for k in 'cgb'):
                     continue
                 out.append({'program': list(prog), 'shared_fn': False, 'budget': B})
+                if prog[0] in 'cgb' and n <= 3:
+                    out.append({'program': list(prog), 'shared_fn': False, 'budget': max(1, B - 1), 'ctor_first': True})
                 if prog.count('c') >= 2:
                     out.append({'program': list(prog), 'shared_fn': True, 'budget': B})
         for n in ((1, 2, 3) if tier == 'quick' else (1, 2, 3, 4)):
@@ -255,10 +268,10 @@ class C10(Harness):
         vs = []
         stats = {'schedules': 0, 'nodes': 0}
         exp = self.expected_final(program)
-        key = dict(program=''.join(program), shared=shared)
+        key = dict(program=''.join(program), shared=shared, ctor_first=case.get('ctor_first', False))
 
         def replay(sched):
-            r = Run(program, shared)
+            r = Run(program, shared, case.get('ctor_first', False))
             try:
                 for a in sched:
                     r.do(a)
